@@ -57,8 +57,13 @@ Init == /\ tid \in 1..NTr /\ l = 1 /\ viol = <<>> /\ nf = 0 /\ nx = 0 /\ mdl = N
 \* ---------------------------------------------------------------------------------------- helpers
 Owned(ps) == Prop = "ALL" \/ Prop \in ps
 \* cl: sequence of <<name, owners, holds>>; record the first clause that is owned by Prop and false
-Chk(cl) == LET f == {i \in 1..Len(cl) : Owned(cl[i][2]) /\ ~cl[i][3]}
-           IN  viol' = IF f = {} THEN viol ELSE Append(viol, <<cl[CHOOSE i \in f : \A j \in f : i <= j][1], l>>)
+\* C19: a trace with Cfg.ref > 0 must equal its reference trace event for event (checked at every event, before the event's own clauses)
+RefClause == IF Cfg.ref = 0 THEN TRUE
+             ELSE /\ l <= Len(Traces[Cfg.ref].ev) /\ Ev[l] = Traces[Cfg.ref].ev[l]
+                  /\ (l = Len(Ev) => Len(Traces[Cfg.ref].ev) = Len(Ev))
+Chk(cl0) == LET cl == << <<"identical_to_reference_run", {"C19"}, RefClause>> >> \o cl0
+                f == {i \in 1..Len(cl) : Owned(cl[i][2]) /\ ~cl[i][3]}
+            IN  viol' = IF f = {} THEN viol ELSE Append(viol, <<cl[CHOOSE i \in f : \A j \in f : i <= j][1], l>>)
 
 \* observed model projection -> abstract model record
 ObsSlots(p) == [k \in 1..p.npt |-> Slot(p.en[k], p.ns[k], p.obj[k])]
@@ -384,18 +389,9 @@ Kernel(e) == /\ Chk([i \in 1..Len(e.cl) |-> <<e.name \o "_" \o e.cl[i][1], {e.cl
 Other(e) == /\ Chk(<< >>)
             /\ UNCH(<<nf, nx, mdl, batch, x0st, curxid, ptxid, bestf, bestBeforeFault, faulted, raisedSeen>>) /\ UNCH(Rest1)
 
-\* C19: a trace with Cfg.ref > 0 must equal its reference trace event for event
-RefClause == IF Cfg.ref = 0 THEN TRUE
-             ELSE /\ l <= Len(Traces[Cfg.ref].ev) /\ Ev[l] = Traces[Cfg.ref].ev[l]
-                  /\ (l = Len(Ev) => Len(Traces[Cfg.ref].ev) = Len(Ev))
-
 Step ==
   /\ l <= Len(Ev) /\ l' = l + 1 /\ tid' = tid
   /\ LET e == Ev[l] IN
-     IF Owned({"C19"}) /\ ~RefClause
-     THEN /\ viol' = Append(viol, <<"identical_to_reference_run", l>>)
-          /\ UNCH(<<nf, nx, mdl, batch, x0st, curxid, ptxid, bestf, bestBeforeFault, faulted, raisedSeen>>) /\ UNCH(Rest1)
-     ELSE
      CASE e.ev = "Call" -> Call(e)
        [] e.ev = "LogEval" -> LogEval(e)
        [] e.ev = "NSamples" -> NSamples(e)
